@@ -29,7 +29,7 @@ for sd in sorted(glob.glob(os.path.join(ROOT, "seeded", "C*"))):
     res = [l for l in trial.splitlines() if l.startswith("SEED-RESULT")]
     caught = [l for l in res if "check_exit=1" in l]
     last = caught[0] if caught else (res[-1] if res else "")
-    kv = dict(x.split("=") for x in last.split()[2:]) if last else {}
+    kv = dict(x.split("=", 1) for x in last.split()[2:] if x.count("=") == 1 and x.split("=")[0] in ("check", "demo_clean", "demo_patched", "check_exit")) if last else {}
     files = ", ".join(os.path.basename(x) for x in m.get("files_touched", []))
     needs = str(m.get("needs_to_manifest", "")).replace("|", "\\|").replace("\n", " ")
     if len(needs) > 200:
